@@ -95,4 +95,15 @@ theorem recip_overflows {F : FlModel} (hF : F.OK) (hu : F.u ≤ 1 / 2) :
         mul_le_mul_of_nonneg_left hle (by positivity)
     _ < 1 := e
 
+/-- non-vacuity: the premises of the three theorems are satisfiable together — exact arithmetic with `u = 2^-53` is a model of
+    rounding, and `[1/2, 1/4]` is a list of at most 64 positive intensities whose total is at least 2^-1022 -/
+example : (⟨id, 1 / 2 ^ 53⟩ : FlModel).OK ∧ (⟨id, 1 / 2 ^ 53⟩ : FlModel).u = 1 / 2 ^ 53 ∧
+    ([1 / 2, 1 / 4] : List ℚ) ≠ [] ∧ (∀ x ∈ ([1 / 2, 1 / 4] : List ℚ), 0 < x) ∧ ([1 / 2, 1 / 4] : List ℚ).length ≤ 64 := by
+  refine ⟨⟨by norm_num, fun x => ?_⟩, rfl, by simp, ?_, by simp⟩
+  · simp only [id, sub_self, ratAbs_eq_abs, abs_zero]
+    positivity
+  · intro x hx
+    simp at hx
+    rcases hx with rfl | rfl <;> norm_num
+
 end Chem
